@@ -68,9 +68,15 @@ func C10(c *Ctx) {
 	// (no blocks in the duplicated rule: their method names would be the same)
 	dup := &gast.Grammar{Rules: []*gast.Rule{{Name: "S", Expr: gast.S(gast.Star(gast.C(gast.A(gast.Lab("a", gast.Ref("A")), 1, mon.Spec{}), gast.Ref("B"))), gast.Star(gast.Dot()))},
 		{Name: "A", Expr: gast.L("a")}, {Name: "B", Expr: gast.A(gast.S(gast.L("b"), gast.Lab("a", gast.Ref("A"))), 3, mon.Spec{})}, {Name: "A", Expr: gast.Plus(gast.L("x"))}}}
+	// classes with many ranges, some nested in or overlapping an earlier one, listed in no order (a
+	// lookup that sorts or bisects the ranges must still accept what the plain scan accepts)
+	wideRanges := [][2]rune{{'q', 's'}, {'a', 'z'}, {'c', 'f'}, {'A', 'Z'}, {'0', '9'}, {'α', 'ω'}, {'β', 'δ'}, {'А', 'я'}, {'ぁ', 'ん'}, {'ァ', 'ヺ'}, {'가', '힣'}, {'나', '다'}, {'E', 'e'}}
+	wide := &gast.Grammar{Rules: []*gast.Rule{{Name: "S", Expr: gast.S(gast.Star(gast.C(gast.Cl(&gast.ClassSpec{Ranges: wideRanges}), gast.L("-"))), gast.NotE(gast.Dot()))}}}
+	wideInv := &gast.Grammar{Rules: []*gast.Rule{{Name: "S", Expr: gast.S(gast.Star(gast.C(gast.Cl(&gast.ClassSpec{Ranges: wideRanges, Inverted: true}), gast.L("m"))), gast.Star(gast.Dot()))}}}
+	wideCI := &gast.Grammar{Rules: []*gast.Rule{{Name: "S", Expr: gast.S(gast.Star(gast.C(gast.Cl(&gast.ClassSpec{Ranges: wideRanges[:9], Chars: []rune("_#"), IgnoreCase: true}), gast.L("-"))), gast.Star(gast.Dot()))}}}
 	// the fixed shapes run under every base flag set
 	for k := 0; k < 4; k++ {
-		for _, g := range append(append(append(c05Strata(), rollbackStrata()[:20]...), c02Strata()...), append(append(c14Strata(), c01Strata()[:6]...), fold, dup)...) {
+		for _, g := range append(append(append(c05Strata(), rollbackStrata()[:20]...), c02Strata()...), append(append(c14Strata(), c01Strata()[:6]...), fold, dup, wide, wideInv, wideCI)...) {
 			gs = append(gs, g.Clone())
 			lr = append(lr, false)
 			xi = append(xi, k)
